@@ -139,7 +139,8 @@ def wire(e):
     if k == 'lit':
         v = e[1]
         if v[0] == 'i':
-            return f"(lit {v[1]})"
+            # `(-1)` is Negate applied to 1: a 0-d tensor / numpy scalar, not a Python int
+            return f"(lit {v[1]})" if v[1] >= 0 else f"(neg (lit {-v[1]}))"
         if v[0] == 'r':
             return "(rlit)"
         return f"(tlit {U.to_wire(v)})"
@@ -734,6 +735,8 @@ def micro(ctx, drv, n):
         ask("stack", [_w(p) for p in parts], torch.stack(tparts), np.asarray(parts))
         c = _rand_tensor(rng, (rng.randrange(1, 3),) + sh[1:])
         ask("cat0", [wa, _w(c)], torch.cat((ta, torch.from_numpy(c))), np.concatenate((a, c)))
+        k = rng.randrange(0, 4)
+        ask("tile0", [wa, f"(i {k})"], torch.tile(ta, (k,) + (1,) * (ta.ndim - 1)), np.tile(a, (k,) + (1,) * (a.ndim - 1)))
         # numpy's own ufunc semantics used as the reference side
         ask("npReduce:sub", [wa], None, np.subtract.reduce(a))
         ask("npAccumulate:sub", [wa], None, np.subtract.accumulate(a))
@@ -970,7 +973,7 @@ def run(ctx):
                         for e in progs:
                             S.one(e, env, 'inline')
                             S.one(e, env, 'var')
-        n2, n3 = (1500, 0) if quick else (12000, 12000)
+        n2, n3 = (4000, 0) if quick else (12000, 12000)
         for depth, n in ((2, n2), (3, n3)):
             for _ in range(n):
                 env = gen_env(ctx.rng)
